@@ -385,7 +385,7 @@ def set_default_doc(param, emit_default_doc=True):
             _param["doc"] = "{doc} Defaults to {default}".format(
                 doc=(
                     _param["doc"]
-                    if _param["doc"][-1] in frozenset((".", ","))
+                    if _param["doc"][-1] in frozenset((".", ",", ";", ":"))
                     else "{doc}.".format(doc=_param["doc"])
                 ),
                 default=(
